@@ -273,11 +273,18 @@ func init() {
 		})
 		samples = append(samples, map[string]interface{}{"stream": "a\r\n..b\r\n.\r\n", "expected_at_backend": string(t.Interp([]byte("a\r\n..b\r\n.\r\n"), 0).Out)})
 		samples = append(samples, map[string]interface{}{"stream": ".\rx\r\r\n.\r\n", "expected_at_backend": string(t.Interp([]byte(".\rx\r\r\n.\r\n"), 0).Out)})
-		fmt.Printf("C01: TLC %d states (layers agree up to the bound); interpreter cross-checked on %d TLC runs; real reader driven on %d streams, %d runs\n", mc.Distinct, nx, st.streams, st.runs)
+		nh := 240
+		if tier == "thorough" {
+			nh = 3000
+		}
+		hc, hm := c01Histories(run, t, nh)
+		fmt.Printf("C01: TLC %d states (layers agree up to the bound); interpreter cross-checked on %d TLC runs; real reader driven on %d streams, %d runs; %d messages over %d connections end to end (histories with RSET, refused and chunked messages, STARTTLS in between)\n", mc.Distinct, nx, st.streams, st.runs, hm, hc)
 		run.Finish("model_checking", evid.Coverage{
 			"states": mc.Distinct, "transitions": mc.Generated,
 			"traces_validated_against_impl": st.streams,
 			"reader_runs":                   st.runs,
+			"e2e_connections":               hc,
+			"e2e_messages":                  hm,
 			"distinct_nontrivial":           st.nontrivial,
 			"evaluations":                   st.runs,
 			"rule":                          "every stream over {'.',CR,LF,other} up to the length bound (other rotated over NUL,a,0x80,0xFF,SP,TAB,M,-) x read sizes {1,2,3,7,4096} x segmentations {whole, bytewise, one random split}, plus seeded random octet streams; non-trivial = contains an end marker or a removed dot",
